@@ -120,3 +120,68 @@ theorem nd (c : Nat) (h : c = 100 ∨ c = 39 ∨ c = 34 ∨ c = 58) : ¬ IsDigit
 
 
 end GeoVerif.DMSProofs
+
+namespace GeoVerif.DMSProofs
+open GeoVerif GeoVerif.DMS GeoVerif.Gen
+
+/-- a byte that is neither a digit nor the point survives `number` (it is in the unread rest) -/
+theorem number_rest_mem (s : Bytes) (x : Nat) (hx : x ∈ s) (hnd : ¬ IsDigit x) (h46 : x ≠ 46) : x ∈ (number s).2 := by
+  obtain ⟨pre, h1, h2, _⟩ := scanDigits_rest s 0 0
+  have hx1 : x ∈ (scanDigits 0 0 s).2.2 := by
+    rw [h1] at hx
+    rcases List.mem_append.mp hx with h | h
+    · exact absurd (h2 x h) hnd
+    · exact h
+  unfold number
+  rcases hsc : scanDigits 0 0 s with ⟨v, n, r⟩
+  rw [hsc] at hx1
+  simp only at hx1
+  cases r with
+  | nil => cases hx1
+  | cons c r' =>
+    by_cases hc : c = 46
+    · subst hc
+      have hx2 : x ∈ r' := by
+        rcases List.mem_cons.mp hx1 with h | h
+        · exact absurd h h46
+        · exact h
+      obtain ⟨pre2, g1, g2, _⟩ := scanDigits_rest r' 0 0
+      simp only
+      rw [g1] at hx2
+      rcases List.mem_append.mp hx2 with h | h
+      · exact absurd (g2 x h) hnd
+      · exact h
+    · split
+      · rename_i heq; cases heq; exact absurd rfl hc
+      · rename_i heq; cases heq; exact hx1
+
+theorem lookup_zero (tbl : Bytes) : lookup tbl 0 < 0 := by simp [lookup]
+
+/-- **a component text containing a NUL byte is never accepted** by the component loop -/
+theorem comps_nul (f : Nat) : ∀ (np : Nat) (sl : Slots) (s : Bytes), 0 ∈ s → ∃ e, comps f np sl s = .error e := by
+  induction f with
+  | zero => intro np sl s _; exact ⟨_, rfl⟩
+  | succ f ih =>
+    intro np sl s h0
+    rcases hnum : number s with ⟨n, rest⟩
+    have hmem : 0 ∈ rest := by
+      have := number_rest_mem s 0 h0 (by unfold IsDigit; omega) (by omega)
+      rw [hnum] at this; exact this
+    cases rest with
+    | nil => cases hmem
+    | cons c rest' =>
+      by_cases hc0 : c = 0
+      · subst hc0
+        simp only [comps, hnum]
+        have hk : lookup DMSC.dmsindicators 0 < 0 := lookup_zero _
+        by_cases hs : isSign 0 <;> simp [hk, hs]
+      · have hm' : 0 ∈ rest' := by
+          rcases List.mem_cons.mp hmem with h | h
+          · exact absurd h.symm hc0
+          · exact h
+        have hne : rest'.isEmpty = false := by cases rest' <;> simp_all
+        simp only [comps, hnum, hne]
+        repeat' split
+        all_goals first | exact ⟨_, rfl⟩ | exact ih _ _ _ hm' | (exfalso; simp_all)
+
+end GeoVerif.DMSProofs
